@@ -204,11 +204,19 @@ class Evaluator:
             other = b if a is NOW else a
             if not isinstance(other, dt.datetime):
                 return UNSPEC
-            # NOW is later than every stored / literal date-time of the workload
-            gt = {"eq": False, "ne": True, "lt": False, "le": False, "gt": True, "ge": True}[op]
+            # NOW is later than every date-time of the workload before 2026 and earlier than
+            # those after 2100; anything in between is not pinned
+            later = {"eq": False, "ne": True, "lt": False, "le": False, "gt": True, "ge": True}[op]
+            earlier = {"eq": False, "ne": True, "lt": True, "le": True, "gt": False, "ge": False}[op]
+            if other.year < 2026:
+                now_is_later = True
+            elif other.year > 2100:
+                now_is_later = False
+            else:
+                return UNSPEC
             if a is NOW:
-                return gt
-            return {"eq": False, "ne": True, "lt": True, "le": True, "gt": False, "ge": False}[op]
+                return later if now_is_later else earlier
+            return earlier if now_is_later else later
         if op == "eq":
             return self._eq(a, b)
         if op == "ne":
@@ -252,10 +260,13 @@ class Evaluator:
         if a is NOW or b is NOW:
             return UNSPEC
         if isinstance(a, (dt.datetime, dt.date)) and isinstance(b, dt.timedelta):
-            if op == "add":
-                return a + b
-            if op == "sub":
-                return a - b
+            try:
+                if op == "add":
+                    return a + b
+                if op == "sub":
+                    return a - b
+            except OverflowError:
+                return UNSPEC       # beyond year 1..9999: engines differ
             return UNSPEC
         if isinstance(a, str) and isinstance(b, str) and op == "add":
             self.flags.add("string-add")
